@@ -119,6 +119,8 @@ def mk_cmp(p, a, b):
     """p in lt le gt ge eq ne on reals or ints -> Bool term or python bool"""
     if is_const(a) and is_const(b):
         return {'lt': a < b, 'le': a <= b, 'gt': a > b, 'ge': a >= b, 'eq': a == b, 'ne': a != b}[p]
+    if a is b:
+        return p in ('le', 'ge', 'eq')
     if p == 'gt':
         return Term('lt', (b, a), 'B')
     if p == 'ge':
